@@ -138,7 +138,7 @@ def _single_def(ctx, f: Func, name: str) -> bool:
     return len(defs) <= 1
 
 
-@rule("BOX", min_instances=10)
+@rule("BOX", min_instances=8)
 def rule_box(ctx: Ctx) -> List[Ob]:
     """a projection onto the caller's [lb, ub] (np.clip / clip2bounds / min-max with the lb, ub
     obtained from get_bounds, followed only by copies) dominates every sink: the arguments of the
@@ -258,9 +258,14 @@ def rule_fdb(ctx: Ctx) -> List[Ob]:
             n2 += 1
             b = bind_args(c, init.node, skip_self=True)
             v = b.get("finite_diff_bounds")
-            ok = isinstance(v, ast.Name) and v.id == "bounds"
-            rdefs = [short(x) for _, x, how in ctx.rd(psf).value_exprs(ctx.cfg(psf).node_of(c), "bounds") if x is not None]
-            ok = ok and all(r in ("(-np.inf, np.inf)",) for r in rdefs)
+            from ..flow import Expander
+            ve = Expander(ctx, psf).expand_at(c, v) if v is not None else None
+            inf = "(-np.inf, np.inf)"
+            ok = ve is not None and src(ve) in ("bounds", f"{inf} if bounds is None else bounds", f"bounds if bounds is not None else {inf}")
+            rdefs = []
+            if isinstance(ve, ast.Name):
+                rdefs = [short(x) for _, x, how in ctx.rd(psf).value_exprs(ctx.cfg(psf).node_of(c), ve.id) if x is not None]
+                ok = ok and all(r == inf for r in rdefs)
             obs.append(ob("FDB", "factory passes its bounds parameter on unchanged", psf, c, ok,
                           f"finite_diff_bounds <- {short(v)}; local redefinitions of bounds: {rdefs or 'none'}",
                           construct=f"ScalarFunction(finite_diff_bounds={short(v)})"))
@@ -316,10 +321,116 @@ def rule_fdb(ctx: Ctx) -> List[Ob]:
     return obs
 
 
+class ModeInterp:
+    """abstract interpretation of a function over the gradient-mode parameter:
+    value in {CALLABLE, FD (a string of FD_METHODS), NONE, OTHER}; unknown tests fork"""
+
+    def __init__(self, fn: ast.FunctionDef, param: str, value: str):
+        self.fn, self.param, self.value = fn, param, value
+        self.outcomes = []      # (kind, env) ; kind in raise / return / end
+
+    def atom(self, e, env):
+        """True / False / None(unknown)"""
+        if isinstance(e, ast.Constant) and isinstance(e.value, bool):
+            return e.value
+        if isinstance(e, ast.Name):
+            v = env.get(e.id)
+            return v if isinstance(v, bool) else None
+        if isinstance(e, ast.UnaryOp) and isinstance(e.op, ast.Not):
+            v = self.atom(e.operand, env)
+            return None if v is None else (not v)
+        if isinstance(e, ast.BoolOp):
+            vs = [self.atom(v, env) for v in e.values]
+            if isinstance(e.op, ast.And):
+                return False if any(v is False for v in vs) else (True if all(v is True for v in vs) else None)
+            return True if any(v is True for v in vs) else (False if all(v is False for v in vs) else None)
+        if isinstance(e, ast.Call) and dotted(e.func) == "callable" and e.args:
+            a = self.val(e.args[0], env)
+            return None if a is None else a == "CALLABLE"
+        if isinstance(e, ast.Compare) and len(e.ops) == 1:
+            l, r, op = self.val(e.left, env), e.comparators[0], e.ops[0]
+            if l is not None and isinstance(op, (ast.In, ast.NotIn)) and src(r) == "FD_METHODS":
+                res = l == "FD" or (isinstance(l, tuple) and l[0] == "const" and l[1] in ("2-point", "3-point", "cs"))
+                return res if isinstance(op, ast.In) else (not res)
+            if l is not None and isinstance(op, (ast.Is, ast.IsNot)) and isinstance(r, ast.Constant) and r.value is None:
+                res = l == "NONE"
+                return res if isinstance(op, ast.Is) else (not res)
+            if l is not None and isinstance(op, (ast.Eq, ast.NotEq)) and isinstance(r, ast.Constant) and isinstance(r.value, str):
+                if l == "FD":
+                    return None
+                res = isinstance(l, tuple) and l[1] == r.value
+                return res if isinstance(op, ast.Eq) else (not res)
+        return None
+
+    def val(self, e, env):
+        """abstract value of an expression of interest, None if not tracked"""
+        if isinstance(e, ast.Name):
+            return env.get(e.id)
+        if isinstance(e, ast.Constant):
+            return "NONE" if e.value is None else ("const", e.value) if isinstance(e.value, str) else None
+        if isinstance(e, ast.IfExp):
+            c = self.atom(e.test, env)
+            if c is None:
+                a, b = self.val(e.body, env), self.val(e.orelse, env)
+                return a if a == b else None
+            return self.val(e.body if c else e.orelse, env)
+        return None
+
+    def run(self):
+        self.block(self.fn.body, {self.param: self.value})
+        return self.outcomes
+
+    def block(self, stmts, env):
+        """returns list of envs that fall through"""
+        envs = [env]
+        for s in stmts:
+            nxt = []
+            for e in envs:
+                nxt += self.stmt(s, e)
+            envs = nxt
+            if not envs:
+                break
+        return envs
+
+    def stmt(self, s, env):
+        if isinstance(s, ast.Raise):
+            self.outcomes.append(("raise", env))
+            return []
+        if isinstance(s, ast.Return):
+            self.outcomes.append(("return", {**env, "__ret__": s.value}))
+            return []
+        if isinstance(s, ast.If):
+            c = self.atom(s.test, env)
+            out = []
+            if c is not False:
+                out += self.block(s.body, dict(env))
+            if c is not True:
+                out += self.block(s.orelse, dict(env))
+            return out
+        if isinstance(s, (ast.Assign, ast.AnnAssign)) and getattr(s, "value", None) is not None:
+            t = s.targets[0] if isinstance(s, ast.Assign) else s.target
+            if isinstance(t, ast.Name):
+                env = dict(env)
+                b = self.atom(s.value, env) if isinstance(s.value, (ast.Call, ast.Compare, ast.BoolOp, ast.UnaryOp)) else None
+                v = b if b is not None else self.val(s.value, env)
+                if v is None and isinstance(s.value, ast.Name) and s.value.id == t.id:
+                    return [env]     # x = x
+                env[t.id] = v if v is not None else ("expr", src(s.value))
+            return [env]
+        if isinstance(s, ast.FunctionDef):
+            env = dict(env)
+            env["def:" + s.name] = s
+            return [env]
+        return [env]
+
+
 @rule("MODES", min_instances=5)
 def rule_modes(ctx: Ctx) -> List[Ob]:
-    """every documented gradient mode {callable, None, '2-point', '3-point', 'cs'} has a handler on
-    both sides (factory and wrapper); unknown modes raise"""
+    """every documented gradient mode has a handler on both sides, decided by abstract interpretation
+    over the mode value {callable, FD string, None, anything else}: the factory maps a callable to
+    itself, a listed scheme to itself with the absolute step disabled, None to a listed scheme keeping
+    the absolute step, and raises on anything else; the wrapper raises on anything but a callable or a
+    listed scheme and installs the matching gradient updater"""
     m = ctx.repo.module("scalar_function")
     psf = ctx.repo.func("scalar_function.prepare_scalar_function")
     init = ctx.repo.func("scalar_function.ScalarFunction.__init__")
@@ -336,34 +447,71 @@ def rule_modes(ctx: Ctx) -> List[Ob]:
     ok = vals == {"2-point", "3-point", "cs"}
     obs.append(Ob("MODES", "FD_METHODS lists the three differencing schemes", m.rel, fd.lineno, "scalar_function",
                   short(fd), ok, f"{sorted(vals)}"))
-    # factory: if callable(jac) / elif jac in FD_METHODS / elif jac is None -> '2-point' / else raise
-    chain = [s for s in psf.node.body if isinstance(s, ast.If)]
-    tests, cur = [], chain[0] if chain else None
-    while cur is not None:
-        tests.append(cur)
-        cur = cur.orelse[0] if len(cur.orelse) == 1 and isinstance(cur.orelse[0], ast.If) else None
-    conds = [src(t.test) for t in tests]
-    last_else = tests[-1].orelse if tests else []
-    raises = any(isinstance(x, ast.Raise) for b in last_else for x in ast.walk(b))
-    for want in ("callable(jac)", "jac in FD_METHODS", "jac is None"):
-        obs.append(ob("MODES", f"factory handles `{want}`", psf, tests[0] if tests else psf.node, any(bool_equiv(t.test, want) for t in tests),
-                      f"branches: {conds}", construct=f"prepare_scalar_function: branch {want}"))
-    none_branch = [t for t in tests if bool_equiv(t.test, "jac is None")]
-    okn = bool(none_branch) and any(isinstance(s, ast.Assign) and src(s.targets[0]) == "grad" and
-                                    isinstance(s.value, ast.Constant) and s.value.value in vals for s in none_branch[0].body)
-    obs.append(ob("MODES", "jac=None maps to a listed differencing scheme", psf, none_branch[0] if none_branch else psf.node, okn,
-                  "grad <- " + ", ".join(short(s.value) for s in (none_branch[0].body if none_branch else []) if isinstance(s, ast.Assign) and src(s.targets[0]) == "grad"),
-                  construct="jac is None -> grad = '2-point'"))
-    obs.append(ob("MODES", "unknown modes raise", psf, tests[-1] if tests else psf.node, raises, f"else-branch raises={raises}",
-                  construct="prepare_scalar_function: else raise"))
-    # wrapper: guard + two update_grad definitions (callable / FD)
-    upd = [g for q, g in ctx.repo.funcs.items() if g.name == "update_grad" and g.parent is init]
-    obs.append(ob("MODES", "wrapper defines a gradient updater for callable and for finite-difference modes", init, init.node,
-                  len(upd) == 2, f"{len(upd)} update_grad definitions", construct="ScalarFunction.__init__: update_grad x2"))
-    body0 = [x for x in init.node.body if not (isinstance(x, ast.Expr) and isinstance(x.value, ast.Constant))]
-    g0 = body0[0] if body0 else None
-    okg = isinstance(g0, ast.If) and bool_equiv(g0.test, "not callable(grad) and grad not in FD_METHODS") and \
-        any(isinstance(x, ast.Raise) for x in ast.walk(g0))
-    obs.append(ob("MODES", "wrapper rejects anything but a callable or a listed scheme", init, g0 or init.node, bool(okg),
-                  f"first statement: {short(g0, 80)}", construct="ScalarFunction.__init__: mode guard"))
+    need("jac" in psf.params and "epsilon" in psf.params, "MODES: prepare_scalar_function(jac, epsilon) parameters not found")
+
+    def ctor_args(env):
+        """(grad, epsilon) abstract values reaching the ScalarFunction construction on this path"""
+        call = None
+        r = env.get("__ret__")
+        cands = [r] if r is not None else []
+        for k, v in env.items():
+            if isinstance(v, tuple) and v[0] == "expr" and "ScalarFunction(" in v[1]:
+                cands.append(ast.parse(v[1], mode="eval").body)
+        for c in cands:
+            for x in ast.walk(c):
+                if isinstance(x, ast.Call) and dotted(x.func) == "ScalarFunction":
+                    call = x
+        if call is None:
+            return None
+        b = bind_args(call, init.node, skip_self=True)
+        mi = ModeInterp(psf.node, "jac", env.get("jac"))
+        return mi.val(b.get("grad"), env), (mi.val(b.get("epsilon"), env) if b.get("epsilon") is not None else "NONE")
+    for value, expect in (("CALLABLE", "a callable gradient is handed on as it is"),
+                          ("FD", "a listed scheme is handed on, the absolute step is disabled"),
+                          ("NONE", "None becomes a listed scheme, the absolute step is kept"),
+                          ("OTHER", "anything else raises")):
+        mi = ModeInterp(psf.node, "jac", value)
+        mi.block(psf.node.body, {"jac": value, "epsilon": ("param", "epsilon")})
+        outs = mi.outcomes
+        kinds = sorted({k for k, _ in outs})
+        if value == "OTHER":
+            okv = kinds == ["raise"]
+            why = f"outcomes {kinds}"
+        else:
+            okv = bool(outs) and all(k == "return" for k, _ in outs)
+            details = []
+            for k, env in outs:
+                if k != "return":
+                    continue
+                ca = ctor_args(env)
+                if ca is None:
+                    okv = False
+                    details.append("no ScalarFunction construction")
+                    continue
+                g, eps = ca
+                if value == "CALLABLE":
+                    good = g == "CALLABLE"
+                elif value == "FD":
+                    good = g == "FD" and eps == "NONE"
+                else:
+                    good = isinstance(g, tuple) and g[0] == "const" and g[1] in vals and eps == ("param", "epsilon")
+                okv = okv and good
+                details.append(f"grad={g}, epsilon={eps}")
+            why = f"outcomes {kinds}: " + "; ".join(details)
+        obs.append(ob("MODES", f"factory: {expect}", psf, psf.node, okv, why, construct=f"prepare_scalar_function[jac is {value}]"))
+    # wrapper side
+    kinds_def = {}
+    for value in ("CALLABLE", "FD", "OTHER"):
+        mi = ModeInterp(init.node, "grad", value)
+        envs = mi.block(init.node.body, {"grad": value})
+        raised = any(k == "raise" for k, _ in mi.outcomes)
+        upd = {("fd" if any((dotted(c.func) or "").endswith("approx_derivative") for c in ast.walk(e["def:update_grad"]) if isinstance(c, ast.Call))
+                else "callable") for e in envs if "def:update_grad" in e}
+        kinds_def[value] = (raised, bool(envs), upd)
+    okw = kinds_def["OTHER"][0] and not kinds_def["OTHER"][1] and \
+        not kinds_def["CALLABLE"][0] and kinds_def["CALLABLE"][2] == {"callable"} and \
+        not kinds_def["FD"][0] and kinds_def["FD"][2] == {"fd"}
+    obs.append(ob("MODES", "wrapper rejects anything but a callable or a listed scheme and installs the matching updater", init, init.node, okw,
+                  "; ".join(f"{k}: raises={v[0]}, continues={v[1]}, updater={sorted(v[2])}" for k, v in kinds_def.items()),
+                  construct="ScalarFunction.__init__[grad mode]"))
     return obs
